@@ -336,7 +336,7 @@ type c12Hist struct {
 	r        *rand.Rand
 	sut      c12Sut
 	m        *c12Model
-	regime   int // 0 unlimited, 1 long, 2 already elapsed
+	regime   int // 0 unlimited, 1 long, 2 already elapsed, 3 practically forever (ttl of centuries: nothing may expire)
 	nkeys    int
 	fill     bool
 	ops      []c12Op
@@ -652,7 +652,7 @@ func (h *c12Hist) pickAdvance() time.Duration {
 		return lo + time.Duration(r.Int63n(n+1))*c12Gran
 	}
 	switch h.regime {
-	case 0: // unlimited: nothing may ever expire, however long
+	case 0, 3: // unlimited / practically forever: nothing may ever expire, however long
 		return g(0, 100*time.Hour)
 	case 2: // short ttl: small steps around it
 		if r.Intn(3) == 0 {
@@ -754,7 +754,7 @@ func (h *c12Hist) run(nops int) *c12Viol {
 			case x < 972:
 				v = h.doClear()
 			default:
-				if h.regime == 0 {
+				if h.regime == 0 || h.regime == 3 {
 					v = h.doAdvance(h.pickAdvance())
 				} else {
 					v = h.doAdvance(time.Duration(h.r.Intn(40)) * c12Gran)
@@ -917,6 +917,9 @@ func engineLRUModel(ctx *Ctx) {
 		}
 		capacity := caps[hr.Intn(len(caps))]
 		regime := hr.Intn(3)
+		if hr.Intn(12) == 0 {
+			regime = 3
+		}
 		nkeys := 2 + hr.Intn(7)
 		nops := 50 + hr.Intn(351)
 		if kind == "lru-fill" {
@@ -931,9 +934,11 @@ func engineLRUModel(ctx *Ctx) {
 			ttl = c12TTLLong
 		case 2:
 			ttl = c12TTLShort
+		case 3:
+			ttl = []time.Duration{time.Duration(math.MaxInt64), 290 * 365 * 24 * time.Hour, 240 * 365 * 24 * time.Hour}[hr.Intn(3)]
 		}
 		cs := c12Case{Kind: kind, Shard: ctx.Shard, Index: i, HSeed: hseed, Capacity: capacity, TTL: ttl.String(),
-			Regime: []string{"unlimited", "long", "already-elapsed"}[regime], Pool: nkeys, NOps: nops}
+			Regime: []string{"unlimited", "long", "already-elapsed", "practically-forever"}[regime], Pool: nkeys, NOps: nops}
 		ctx.R.Begin(cs)
 		ctx.R.Eval(1)
 
